@@ -46,7 +46,9 @@ class _IMTLGWeighting(_Weighting):
             v = torch.ones(matrix.shape[0], device=matrix.device, dtype=matrix.dtype)
 
         v_sum = v.sum()
-        if v_sum.abs() < 1e-12:
+        # The entries of v scale like the inverse of the scale of the matrix, so their sum has to be
+        # compared to their magnitude rather than to an absolute threshold.
+        if v_sum.abs() <= 1e-12 * v.abs().sum():
             weights = torch.zeros_like(v)
         else:
             weights = v / v_sum
